@@ -409,7 +409,9 @@ func newRealRig(c *mon.Case, sp spec) *realRig {
 	g.srvTLS, g.cliTLS = hx.TlsConfigs()
 	g.sock = hx.MustSock(c, sp.Sock)
 	g.pw = watch(g.sock)
-	env(g.sock.SetOption(mangos.OptionMaxRecvSize, sp.Limit))
+	if !sp.Late {
+		env(g.sock.SetOption(mangos.OptionMaxRecvSize, sp.Limit))
+	}
 	c.Cleanup(func() {
 		for _, cn := range g.conns {
 			cn.Close()
@@ -426,6 +428,10 @@ func newRealRig(c *mon.Case, sp spec) *realRig {
 		l, err := g.sock.NewListener(hx.ListenAddr(sp.Tr), lo)
 		env(err)
 		env(l.Listen())
+		if sp.Late {
+			env(l.SetOption(mangos.OptionMaxRecvSize, sp.Limit))
+			g.tag += ":late"
+		}
 		g.url = l.Address()
 	} else {
 		path := ""
@@ -680,7 +686,9 @@ func caseWSLimit(c *mon.Case, sp spec) {
 	srvTLS, cliTLS := hx.TlsConfigs()
 	sock := hx.MustSock(c, sp.Sock)
 	pw := watch(sock)
-	env(sock.SetOption(mangos.OptionMaxRecvSize, sp.Limit))
+	if !sp.Late {
+		env(sock.SetOption(mangos.OptionMaxRecvSize, sp.Limit))
+	}
 	var lo map[string]interface{}
 	if sp.Tr == "wss" {
 		lo = map[string]interface{}{mangos.OptionTLSConfig: srvTLS}
@@ -688,6 +696,10 @@ func caseWSLimit(c *mon.Case, sp spec) {
 	l, err := sock.NewListener(hx.ListenAddr(sp.Tr), lo)
 	env(err)
 	env(l.Listen())
+	if sp.Late {
+		env(l.SetOption(mangos.OptionMaxRecvSize, sp.Limit))
+		tag += ":late"
+	}
 	url := l.Address()
 	wait := func(sig, what string, call *mon.Call) bool {
 		return c.AwaitOrViolate(sig+":"+tag, what+" ["+tag+"]", call.Done, mon.AwaitOpts{})
